@@ -1,5 +1,5 @@
 import Poulpy.Driver.Util
-import Poulpy.Model.ScratchOps2
+import Poulpy.Model.ScratchOps3
 /-
 Driver for C12.  Request:  `id scratch <op> be=fft64|ntt120 n=.. k=v … mis=<0..63> [win=<bytes>]`
 Answer:   `id tb=<tmp_bytes> req=<req> reqa=<reqA> al=<0|1> fits=<0|1> run=<ok|take|need> peak=<p> ev=<o:l:r,…>`
@@ -16,6 +16,86 @@ open _root_.Scratch
 
 def beOf (ts : List String) : BE := if kv ts "be" == some "ntt120" then .ntt120 else .fft64
 
+
+/-- third table (Model/ScratchOps3.lean) -/
+def opOf3 (op : String) (ts : List String) : Option (Nat × AllocTree) :=
+  let be := beOf ts
+  let g := kvNat ts
+  let n := g "n"
+  let res : G := ⟨g "rank", g "size", g "b2k"⟩
+  let a : G := ⟨g "arank", g "asize", g "ab2k"⟩
+  let k : K := ⟨g "krin", g "krout", g "ksize", g "kb2k", g "dnum", g "dsize"⟩
+  let t : K := ⟨g "rank", g "rank", g "tsize", g "tb2k", g "tdnum", g "tdsize"⟩
+  let t2 : K := ⟨pairs (g "rank"), g "rank", g "tsize", g "tb2k", g "tdnum", g "tdsize"⟩
+  let brk : K := brkK (g "rank") (g "bsize") (g "bb2k") (g "bdnum")
+  let ksl : K := ⟨if g "ksglwe" == 1 then g "gkrout" else g "rank", 1, g "lksize", g "lkb2k", g "lkdnum", 1⟩
+  let w : W := ⟨res, g "rdnum"⟩
+  let nlwe := g "nlwe"
+  let block := g "block"
+  let ext := g "ext"
+  let off := g "off"
+  let bs := if g "ptk" > 0 then ceilDiv (g "ptk") res.b2k else g "bsize"
+  match op with
+  | "gglwe_prepare" => some (tbPrepare be n, treePrepare be n 1)
+  | "ggsw_prepare" => some (tbPrepare be n, treePrepare be n 1)
+  | "glwe_switching_key_prepare" => some (tbPrepare be n, treePrepare be n 2)
+  | "glwe_automorphism_key_prepare" => some (tbPrepare be n, treePrepare be n 2)
+  | "prepare_tensor_key" => some (tbPrepare be n, treePrepare be n 2)
+  | "gglwe_to_ggsw_key_prepare" => some (tbPrepare be n, treePrepareMany be n res.rank true)
+  | "lwe_switching_key_prepare" => some (tbPrepare be n, treePrepare be n 3)
+  | "lwe_to_glwe_key_prepare" => some (tbPrepare be n, treePrepare be n 3)
+  | "glwe_to_lwe_key_prepare" => some (tbPrepare be n, treePrepare be n 3)
+  | "blind_rotation_key_prepare" => some (tbPrepare be n, treePrepareMany be n nlwe false)
+  | "circuit_bootstrapping_key_prepare" => some (tbPrepare be n, treeCbtKeyPrepare be n nlwe res.rank (g "natk"))
+  | "prepare_bdd_key" => some (tbPrepare be n, treeBddKeyPrepare be n nlwe res.rank (g "natk") (g "ksglwe" == 1))
+  | "glwe_switching_key_compressed_encrypt_sk" => some (tbSwitchingKeyEncryptSk be n k, treeSwitchingKeyCompressedEncryptSk be n k)
+  | "glwe_automorphism_key_compressed_encrypt_sk" => some (tbAutomorphismKeyEncryptSk be n k, treeAutomorphismKeyCompressedEncryptSk be n k)
+  | "glwe_tensor_key_compressed_encrypt_sk" => some (tbTensorKeyEncryptSk be n k, treeTensorKeyCompressedEncryptSk be n k)
+  | "gglwe_to_ggsw_key_compressed_encrypt_sk" => some (tbGglweToGgswKeyEncryptSk be n k, treeGglweToGgswKeyCompressedEncryptSk be n k)
+  | "glwe_mul_plain" => some (tbGlweMulPlain be n res a (g "bsize"), treeGlweMulPlain be n off res a (g "bsize") (g "ea") (g "eb"))
+  | "glwe_mul_plain_assign" => some (tbGlweMulPlain be n res res (g "bsize"), treeGlweMulPlainAssign be n off res (g "bsize") (g "eb") (g "ea"))
+  | "glwe_tensor_apply" => some (tbGlweTensorApply be n res a (g "bsize"), treeGlweTensorApply be n off res a (g "bsize") (g "ea") (g "eb"))
+  | "glwe_tensor_apply_add_assign" => some (tbGlweTensorApply be n res a (g "bsize"), treeGlweTensorApply be n off res a (g "bsize") (g "ea") (g "eb"))
+  | "glwe_tensor_square_apply" => some (tbGlweTensorSquare be n res a, treeGlweTensorSquare be n off res a (g "ea"))
+  | "blind_rotation_execute" => some (tbBlindRotation be n block ext res brk, treeBlindRotation be n nlwe block ext res brk)
+  | "blind_rotation_key_encrypt_sk" => some (tbGgxEncryptSk be n brk.size, treeBrkEncryptSk be n nlwe brk)
+  | "blind_rotation_key_compressed_encrypt_sk" => some (tbGgxEncryptSk be n brk.size, treeBrkCompressedEncryptSk be n nlwe brk)
+  | "circuit_bootstrapping_execute" => some (tbCbt be n block ext w brk k t, treeCbtConstant be n nlwe block ext (g "iters") w brk k t)
+  | "circuit_bootstrapping_key_encrypt_sk" => some (tbCbtKeyEncryptSk be n brk k t, treeCbtKeyEncryptSk be n nlwe (g "natk") brk k t)
+  | "bdd_key_encrypt_sk" =>
+      let kg : Option K := if g "ksglwe" == 1 then some ⟨g "rank", g "gkrout", g "gksize", g "gkb2k", g "gkdnum", g "gkdsize"⟩ else none
+      some (tbBddKeyEncryptSk be n brk k t ksl kg, treeBddKeyEncryptSk be n nlwe (g "natk") brk k t ksl kg)
+  | "fhe_uint_prepare" =>
+      let kg : Option K := if g "ksglwe" == 1 then some ⟨g "rank", g "gkrout", g "gksize", g "gkb2k", g "gkdnum", g "gkdsize"⟩ else none
+      some (g "threads" * tbFheUintPrepare be n block w a brk k t ksl kg,
+        treeFheUintPrepare be n (g "threads") nlwe block (g "iters") (g "bitsper") (g "idx") w a brk k t ksl kg)
+  | "glwe_blind_rotation" => some (tbGlweBlindRotation be n res k, treeGlweBlindRotation be n (g "bitmask") res k)
+  | "ggsw_to_ggsw_blind_rotation" => some (tbGlweBlindRotation be n res k, treeGgswBlindRotation be n (g "cells") (g "bitmask") res k)
+  | "scalar_to_ggsw_blind_rotation" => some (tbScalarToGgswBlindRotation be n res k, treeScalarToGgswBlindRotation be n (g "cells") (g "bitmask") res k)
+  | "glwe_blind_selection" => some (tbGlweBlindRotation be n res k, treeGlweBlindSelection be n (g "steps") res k)
+  | "glwe_blind_retrieval" => some (tbCswap be n res res k, treeGlweBlindRetrieval be n (g "steps") res k)
+  | "retrieve" => some (tbRetrieve be n res k, treeRetrieve be n (g "steps") res k)
+  | "bdd_2w_to_1w" => some (tbBdd2w1w be n (g "threads") (g "bits") (g "state") res k t,
+      treeBdd2w1w be n (g "threads") (g "bits") (g "state") (g "rounds") (g "iters") res k t)
+  | "fhe_uint_encrypt_sk" => some (tbFheUintEncryptSk be n res, treeFheUintEncryptSk be n res)
+  | "fhe_uint_decrypt" => some (tbFheUintDecrypt be n res, treeFheUintDecrypt be n res)
+  | "ckks_mul" => some (tbCkksMul be n res t2, treeCkksMul be n off (g "ea") (g "eb") res t2)
+  | "ckks_square" => some (tbCkksSquare be n res t2, treeCkksSquare be n off (g "ea") res t2)
+  | "ckks_mul_pt_vec_znx" => some (tbCkksMulPtVecZnx be n res a (g "bsize"), treeGlweMulPlain be n off res a (g "bsize") (g "ea") (g "eb"))
+  | "ckks_mul_pt_vec_rnx" => some (tbCkksMulPtVecRnx be n res a (g "bsize"), treeCkksMulPtVecRnx be n off res a (g "bsize") (g "ea"))
+  | "ckks_mul_pt_const" => some (tbCkksMulPtConst be n res a bs, treeCkksMulPtConst be n off res a bs)
+  | "ckks_composite_ct" => some (tbCkksComposite n res (tbCkksMul be n res t2), treeCkksComposite n res (treeCkksMul be n off (g "ea") (g "eb") res t2))
+  | "ckks_composite_pt_vec_znx" => some (tbCkksComposite n res (tbCkksMulPtVecZnx be n res a (g "bsize")),
+      treeCkksComposite n res (treeGlweMulPlain be n off res a (g "bsize") (g "ea") (g "eb")))
+  | "ckks_composite_pt_vec_rnx" => some (tbCkksComposite n res (tbCkksMulPtVecRnx be n res a (g "bsize")),
+      treeCkksComposite n res (treeCkksMulPtVecRnx be n off res a (g "bsize") (g "ea")))
+  | "ckks_composite_pt_const" => some (tbCkksComposite n res (tbCkksMulPtConst be n res a (g "bsize")),
+      treeCkksComposite n res (treeCkksMulPtConst be n off res a (g "bsize")))
+  | "ckks_mul_many" => some (tbCkksMulMany be n (g "cnt") res t2, treeCkksMulMany be n off (g "ea") (g "eb") res t2 (g "levels"))
+  | "ckks_dot_product_ct" => some (tbCkksDotProductCt be n (g "cnt") res t2, treeCkksDotProductCt be n off (g "ea") (g "eb") (g "cnt") res t2)
+  | "ckks_all_ops" => some (tbCkksAllOps be n res t2 (g "bsize"), .done)
+  | "ckks_all_ops_with_atk" => some (tbCkksAllOpsAtk be n res t2 k (g "bsize"), .done)
+  | _ => none
 
 /-- second table (Model/ScratchOps2.lean) -/
 def opOf2 (op : String) (ts : List String) : Option (Nat × AllocTree) :=
@@ -76,10 +156,9 @@ def opOf2 (op : String) (ts : List String) : Option (Nat × AllocTree) :=
   | "ckks_extract_pt" => some (tbCkksExtractPt n, altList [treeRsh n, treeLsh n])
   | "ckks_encrypt_sk" => some (tbCkksEncryptSk be n res.size, treeCkksEncryptSk be n res)
   | "ckks_decrypt" => some (tbCkksDecrypt be n res.size, treeCkksDecrypt be n res)
-  | "ckks_mul_pt_const" => some (tbCkksMulPtConst be n res a (ceilDiv (g "ptk") res.b2k), .done)
   | "glwe_mul_const" => some (tbGlweMulConst be n res a (g "bsize"), treeGlweMulConst be n (g "off") res a (g "bsize"))
   | "glwe_mul_const_assign" => some (tbGlweMulConst be n res res (g "bsize"), treeGlweMulConstAssign be n res (g "bsize"))
-  | _ => none
+  | _ => opOf3 op ts
 
 /-- (tmp_bytes, tree) of a named operation -/
 def opOf (op : String) (ts : List String) : Option (Nat × AllocTree) :=
@@ -115,8 +194,8 @@ def opOf (op : String) (ts : List String) : Option (Nat × AllocTree) :=
   | "cnv_prepare_self" => some (cnvPrepSelfTmp be n (g "size") (g "asize"), leaf (cnvPrepSelfTmp be n (g "size") (g "asize")))
   | "cnv_apply_dft" => some (cnvApplyTmp be (g "size") (g "asize") (g "bsize"), leaf (cnvApplyTmp be (g "size") (g "asize") (g "bsize")))
   | "cnv_by_const_apply" => some (cnvByConstTmp be (g "size") (g "asize") (g "bsize"), leaf (cnvByConstTmp be (g "size") (g "asize") (g "bsize")))
-  -- the hal delegate of the pairwise query swaps its first two arguments: the value passed as `cnv_offset` is used as `res_size`
-  | "cnv_pairwise_apply_dft" => some (cnvPairwiseTmp be (g "off") (g "asize") (g "bsize"), leaf (cnvPairwiseTmp be (g "off") (g "asize") (g "bsize")))
+  -- docs/fixes/13: the hal delegate of the pairwise query no longer swaps its first two arguments
+  | "cnv_pairwise_apply_dft" => some (cnvPairwiseTmp be (g "size") (g "asize") (g "bsize"), leaf (cnvPairwiseTmp be (g "size") (g "asize") (g "bsize")))
   -- core
   | "lwe_encrypt_sk" => some (tbLwe n (g "size"), treeLweEncryptSk n (g "size"))
   | "lwe_decrypt" => some (tbLwe n (g "size"), treeLweDecrypt n (g "size"))
